@@ -42,6 +42,7 @@ DEG_ALPHABET = {
     '0': dict(deg_list=[0]),
     '2..*': dict(deg_min=2, deg_max=math.inf),
     '1,3': dict(deg_list=[1, 3]),
+    '3': dict(deg_list=[3]),
 }
 
 
